@@ -301,5 +301,28 @@ def main(tier, seed):
 
 def replay(rep):
     c = rep['case']
+    cu = tree.csv_utils()
+    if c.get('kind') == 'split':
+        p_ = cu.smart_split(c['line'], c['dlm'], c['policy'], c['preserve'])
+        j_ = js.run_batch([{'op': 'split', 'line': c['line'], 'dlm': c['dlm'], 'policy': c['policy'], 'preserve': c['preserve']}])[0]
+        print('python:', (list(p_[0]), bool(p_[1])), 'js:', j_)
+        return 0 if (list(p_[0]), bool(p_[1])) == (j_.get('fields'), j_.get('warning')) else 1
+    if c.get('kind') == 'quote':
+        p_ = (cu.quote_field(c['field'], c['dlm']), cu.rfc_quote_field(c['field'], c['dlm']))
+        j_ = js.run_batch([{'op': 'quote', 'field': c['field'], 'dlm': c['dlm']}])[0]
+        print('python:', p_, 'js:', j_)
+        return 0 if p_ == (j_.get('q'), j_.get('rfc')) else 1
+    if c.get('kind') == 'read':
+        rc, eng = tree.csvmod(), tree.engine()
+        data = c['text'].encode('utf-8')
+        p_ = norm_py(c12.read_all(rc, eng, io.BytesIO(data), 'utf-8', c['dlm'], c['policy'], c['has_header'], c['comment'], 1024))
+        req = {'op': 'read', 'mode': c['js_mode'], 'encoding': 'utf-8', 'dlm': c['dlm'], 'policy': c['policy'], 'has_header': c['has_header'], 'comment_prefix': c['comment']}
+        if c['js_mode'] == 'bulk':
+            req['hex'] = data.hex()
+        else:
+            req['pieces'] = [data.hex()] if data else []
+        j_ = norm_js(js.run_batch([req])[0], c['has_header'])
+        print('python:', p_, '\njs    :', j_)
+        return 0 if p_ == j_ else 1
     print('re-run the check; case:', c)
     return 0
